@@ -486,6 +486,16 @@ func runDidStream(c *ctx) error {
 	}
 	texts = append(texts, "", "did:key:", "did:key:z", "did:web:example.com", "DID:KEY:z6Mk", "did:key:f"+fmt.Sprintf("%x", []byte{0xed, 1, 2, 3}),
 		"did:key:mAQID", "did:key:z0OIl", "did:key:z6Mk héllo", " did:key:z6Mkfoo", "did:key:z111", "did:key:Z6Mk", "did:key:z6Mk\n")
+	// a valid identifier with something between the prefix and the multibase text, around it, or with the prefix's own
+	// characters repeated: one text, one DID — nothing is trimmed, skipped or folded
+	for _, v := range append([]string(nil), texts[:min(len(texts), 6)]...) {
+		if !strings.HasPrefix(v, "did:key:z") {
+			continue
+		}
+		rest := v[len("did:key:"):]
+		texts = append(texts, "did:key:did:key:"+rest, "did:key::"+rest, "did:key:key:"+rest, "did:key:d"+rest, "did:key:y"+rest, "did:key: "+rest, v+" ", v+"\n", "\t"+v,
+			"did:key:"+rest+"=", "did:key:"+rest+"z", "did:key:z"+rest, "Did:key:"+rest, "did:KEY:"+rest, "did:key:"+strings.ToUpper(rest[:1])+rest[1:], "did:key"+rest, "did:key:\x00"+rest)
+	}
 	for i := 0; i < 300; i++ {
 		texts = append(texts, "did:key:z"+base58.Encode(c.rng.Bytes(1+c.rng.Intn(40))))
 	}
